@@ -266,7 +266,7 @@ def _call(arg):
         return ("err", traceback.format_exc())
 
 
-def pmap(fn, items, nproc=None, chunksize=1, pin=False):
+def pmap(fn, items, nproc=None, chunksize=1, pin=False, maxtasks=None):
     """Unordered parallel map over a fork pool; a worker exception is a harness error."""
     items = list(items)
     nproc = nproc or NPROC
@@ -276,7 +276,7 @@ def pmap(fn, items, nproc=None, chunksize=1, pin=False):
         return
     ctx = multiprocessing.get_context("fork")
     counter = ctx.Value("i", 0)
-    pool = ctx.Pool(min(nproc, len(items)), initializer=_init_worker, initargs=(counter, pin))
+    pool = ctx.Pool(min(nproc, len(items)), initializer=_init_worker, initargs=(counter, pin), maxtasksperchild=maxtasks)
     try:
         for status, val in pool.imap_unordered(_call, [(fn, it) for it in items], chunksize):
             if status == "err":
